@@ -30,6 +30,7 @@ import (
 	gen "github.com/nyaruka/goflow/antlr/gen/excellent3"
 	"github.com/nyaruka/goflow/envs"
 	"github.com/nyaruka/goflow/excellent"
+	"github.com/nyaruka/goflow/excellent/functions"
 	"github.com/nyaruka/goflow/excellent/types"
 
 	"verifharness/pkg/exsx"
@@ -95,6 +96,67 @@ func lexReal(e string) []ltok {
 		out = append(out, ltok{l.SymbolicNames[t.GetTokenType()], t.GetText()})
 	}
 	return out
+}
+
+// inFragment decides, on the REAL scanner/lexer/parser, whether every expression of the template lies in the
+// fragment model/ExTemplate.v evaluates: text literals (whose escapes do not denote raw bytes >= 0x80, where
+// the result of strconv.Unquote is not a code point list), null, context properties (a NAME that is not
+// a function), parentheses and &.  Expressions the real parser rejects are inside (the model must reject them too).
+func inFragment(tpl string, keys []string) (bool, string) {
+	toks, p := scanReal(tpl, keys, true)
+	if p {
+		return false, "scanner-panic"
+	}
+	for _, t := range toks {
+		if t.T != int(excellent.IDENTIFIER) && t.T != int(excellent.EXPRESSION) {
+			continue
+		}
+		for _, lt := range lexReal(t.S) {
+			if lt.Kind == "TEXT" && rawByteEscape(lt.Text) {
+				return false, "raw-byte-escape"
+			}
+		}
+		parsed, err := excellent.Parse(t.S, nil)
+		if err != nil {
+			continue
+		}
+		ok, why := true, ""
+		parsed.Visit(func(e excellent.Expression) {
+			switch n := e.(type) {
+			case *excellent.TextLiteral, *excellent.NullLiteral, *excellent.Parentheses, *excellent.Concatenation:
+			case *excellent.ContextReference:
+				if functions.Lookup(n.Name) != nil {
+					ok, why = false, "function-name"
+				}
+			default:
+				ok, why = false, fmt.Sprintf("%T", e)
+			}
+		})
+		if !ok {
+			return false, why
+		}
+	}
+	return true, ""
+}
+
+// rawByteEscape: the double-quoted lexeme is accepted by strconv.Unquote and one of its \xHH / \ooo
+// escapes denotes a single byte >= 0x80
+func rawByteEscape(lexeme string) bool {
+	if _, err := strconv.Unquote(lexeme); err != nil || len(lexeme) < 2 {
+		return false
+	}
+	s := lexeme[1 : len(lexeme)-1]
+	for len(s) > 0 {
+		v, mb, tail, err := strconv.UnquoteChar(s, '"')
+		if err != nil {
+			return false
+		}
+		if !mb && v >= 0x80 {
+			return true
+		}
+		s = tail
+	}
+	return false
 }
 
 // ---------------------------------------------------------------------------------------------
@@ -399,6 +461,10 @@ func main() {
 		}
 		if !utf8.ValidString(out) {
 			res.Dist("tpl:output-not-utf8(skipped)")
+			return
+		}
+		if ok, why := inFragment(tpl, keys); !ok {
+			res.Dist("tpl:outside-fragment(skipped):" + why)
 			return
 		}
 		res.Eval("tpl:"+tpl, exsx.Special(tpl))
